@@ -120,3 +120,48 @@ Definition correlation_matrix (mapping smap : list (Z * Z)) (arity nthetas : nat
       end
   end.
 End Corr.
+
+(* ---- vocabulary of the source translations of combination_count / generate_full_combinatoric_space
+   (harness/src_functions.py C20_SPACE*; Generated/SrcSpace.v) ----
+   In the translation a treatment mapping is the list of its rows ((name, dose), id) with the name and the dose
+   integers standing for the string and the float ([tmap3]): the three arrays treatment_mapping[0], [1], [2] are its
+   columns.  [key_rows key m] is the mapping of the model above for a numbering [key] of the (name, dose) pairs. *)
+Definition tmap3 : Type := list ((Z * Z) * Z).
+Definition key_rows (key : Z * Z -> Z) (m : tmap3) : list (Z * Z) := map (fun r => (key (fst r), snd r)) m.
+Definition tm_names (m : tmap3) : list Z := map (fun r => fst (fst r)) m.      (* treatment_mapping[0] *)
+Definition tm_doses (m : tmap3) : list Z := map (fun r => snd (fst r)) m.      (* treatment_mapping[1] *)
+Definition sm_names (s : list (Z * Z)) : list Z := map fst s.                  (* sample_mapping[0] *)
+Definition sm_ids (s : list (Z * Z)) : list Z := map snd s.                    (* sample_mapping[1] *)
+(* math.factorial(n): ValueError on a negative argument *)
+Definition py_factorial (n : Z) : result Z := if (n <? 0)%Z then Err E_VALUE else Ok (zfact (Z.to_nat n)).
+(* itertools.combinations(l, k): ValueError on a negative k *)
+Definition py_combinations {A} (l : list A) (k : Z) : result (list (list A)) :=
+  if (k <? 0)%Z then Err E_VALUE else Ok (combs l (Z.to_nat k)).
+(* c[:, :, j] on np.array(<list of k-tuples of pairs>, dtype=object): that array is 3-d exactly when the list is not
+   empty and k >= 1; otherwise "too many indices" (IndexError) *)
+Definition cube_proj {B} (k : nat) (proj : Z * Z -> B) (c : list (list (Z * Z))) : result (list (list B)) :=
+  if Nat.eqb k 0 || (match c with [] => true | _ => false end) then Err E_INDEX else Ok (map (map proj) c).
+(* ["1"] * n : n equal plate names (plate names are not part of the model's result) *)
+Definition platecol : Type := nat.
+(* dict(pairs): a later pair with the same key replaces the value, the key keeps its place *)
+Fixpoint zdict_set (d : list (Z * Z)) (k v : Z) : list (Z * Z) :=
+  match d with
+  | [] => [(k, v)]
+  | (k', v') :: r => if (k' =? k)%Z then (k', v) :: r else (k', v') :: zdict_set r k v
+  end.
+Definition dict_of_pairs (p : list (Z * Z)) : list (Z * Z) :=
+  fold_left (fun d kv => zdict_set d (fst kv) (snd kv)) p [].
+(* d[k]: KeyError *)
+Definition dict_read (d : list (Z * Z)) (k : Z) : result Z :=
+  match zlookup k d with Some v => Ok v | None => Err E_KEY end.
+(* Screen(treatment_names, treatment_doses, sample_names, plate_names, sample_mapping, treatment_mapping) with BOTH mappings
+   supplied: every sample name and every (name, dose) is encoded by a keyed lookup in the supplied mapping (pandas merge
+   how="left" on unique keys; a miss is a ValueError).  The result is (sample_ids, treatment_ids) of the new screen. *)
+Definition pair_eqb (a b : Z * Z) : bool := ((fst a =? fst b) && (snd a =? snd b))%Z.
+Definition lookup3 (m : tmap3) (nd : Z * Z) : result Z :=
+  match find (fun r => pair_eqb (fst r) nd) m with Some r => Ok (snd r) | None => Err E_VALUE end.
+Definition space_screen (tm : tmap3) (sm : list (Z * Z)) (names doses : list (list Z)) (samples : list Z)
+  : result (list Z * list (list Z)) :=
+  dor sids <- res_map_all (fun nm => match zlookup nm sm with Some i => Ok i | None => Err E_VALUE end) samples;
+  dor tids <- res_map_all (fun nd => res_map_all (lookup3 tm) (combine (fst nd) (snd nd))) (combine names doses);
+  Ok (sids, tids).
